@@ -738,6 +738,20 @@ func verifRecv[T any](ch <-chan T) T {
 	return v
 }
 
+func verifRead[T any](p *T, name string) *T {
+	if VerifAccessHook != nil {
+		VerifAccessHook(name, false)
+	}
+	return p
+}
+
+func verifWrite[T any](p *T, name string) *T {
+	if VerifAccessHook != nil {
+		VerifAccessHook(name, true)
+	}
+	return p
+}
+
 func verifClose[T any](ch chan<- T) {
 	if VerifChanHook != nil {
 		rv := reflect.ValueOf(ch)
